@@ -206,7 +206,7 @@ class _Inliner:
         for _ in range(4):
             ch = [False]
             f.body = self.block(f.body, f, free, cls, meth, ch)
-            if not ch[0]:
+            if not ch[0] and not self.cps(f, free, cls, meth):
                 break
         for n in f.body:
             if isinstance(n, ast.FunctionDef):
@@ -280,6 +280,64 @@ class _Inliner:
         for s in pre + body:
             ast.fix_missing_locations(s)
         return pre, body
+
+    # -- a search helper (returns from inside a loop) called as `x = helper(..)` at the top level of the caller: the rest of the
+    #    caller is the continuation of every return of the helper.  for v in R: if c: return E  ; return None   becomes
+    #    for v in R: if c: <rest with x := E> ; <rest with x := None>.  Exact because the caller ends after <rest>.
+    def cps(self, f, free, cls, meth):
+        for k, st in enumerate(f.body):
+            if not (isinstance(st, ast.Assign) and isinstance(st.value, ast.Call) and len(st.targets) == 1 and
+                    isinstance(st.targets[0], ast.Name)):
+                continue
+            t = self.target(st.value, free, cls, meth, f)
+            if t is None:
+                continue
+            h, bound = t
+            rest = f.body[k + 1:]
+            nret = sum(isinstance(x, ast.Return) for b_ in h.body for x in ast.walk(b_))
+            if _tail_returns_only(_tailify([copy.deepcopy(b_) for b_ in h.body])) or nret > 3 or len(rest) > 14 or \
+                    _has(h.body, (ast.While, ast.Break)) or _has(rest, (ast.FunctionDef,), stop=()):
+                continue
+            x = st.targets[0].id
+            if x in _stores(rest):
+                continue
+            pre, body = self.instantiate(h, bound, f)
+            range_vars = {n.target.id for b_ in body for n in ast.walk(b_) if isinstance(n, ast.For) and
+                          isinstance(n.target, ast.Name) and isinstance(n.iter, ast.Call) and
+                          isinstance(n.iter.func, ast.Name) and n.iter.func.id == "range"}
+
+            def cont(value, at):
+                value = value if value is not None else ast.Constant(value=None)
+                if _pure(value) and not (_names([value]) & _stores(rest)):
+                    new = _subst([copy.deepcopy(r_) for r_ in rest], {x: value})
+                    new = _fold_none(new, range_vars)
+                else:
+                    new = [ast.copy_location(ast.Assign(targets=[ast.Name(id=x, ctx=ast.Store())], value=value,
+                                                        lineno=at.lineno), at)] + [copy.deepcopy(r_) for r_ in rest]
+                if not _ends(new):
+                    new.append(ast.copy_location(ast.Return(value=None), at))
+                return new
+
+            def rec(blk):
+                out = []
+                for s_ in blk:
+                    if isinstance(s_, ast.Return):
+                        out.extend(cont(s_.value, s_))
+                        return out
+                    for fld in ("body", "orelse"):
+                        if isinstance(s_, (ast.If, ast.For)) and getattr(s_, fld, None):
+                            setattr(s_, fld, rec(getattr(s_, fld)))
+                    out.append(s_)
+                return out
+            new = rec(body)
+            if not _ends(new):
+                new.extend(cont(None, st))
+            f.body = f.body[:k] + pre + new
+            for s_ in f.body:
+                ast.fix_missing_locations(s_)
+            self.log.append((f.name, h.name))
+            return True
+        return False
 
     # -- rewriting of one statement list
     def block(self, stmts, caller, free, cls, meth, ch):
@@ -550,6 +608,42 @@ class _Unroll(ast.NodeTransformer):
         return out
 
 
+def _fold_none(stmts, nonnull):
+    """`None is None` -> True, `<v> is None` -> False for v in nonnull (range() loop variables) or arithmetic; constant ifs folded,
+    statements after a return / raise dropped"""
+    class T(ast.NodeTransformer):
+        def visit_Compare(self, n):
+            self.generic_visit(n)
+            if len(n.ops) == 1 and isinstance(n.ops[0], (ast.Is, ast.IsNot)) and isinstance(n.comparators[0], ast.Constant) and \
+                    n.comparators[0].value is None:
+                l = n.left
+                known = None
+                if isinstance(l, ast.Constant):
+                    known = l.value is None
+                elif (isinstance(l, ast.Name) and l.id in nonnull) or (
+                        isinstance(l, ast.BinOp) and isinstance(l.op, (ast.Add, ast.Sub, ast.Mult))):
+                    known = False
+                if known is not None:
+                    return ast.copy_location(ast.Constant(value=known if isinstance(n.ops[0], ast.Is) else not known), n)
+            return n
+
+    def trunc(blk):
+        out = []
+        for s_ in blk:
+            for fld in ("body", "orelse"):
+                if isinstance(s_, (ast.If, ast.For, ast.While)) and getattr(s_, fld, None):
+                    setattr(s_, fld, trunc(getattr(s_, fld)))
+            out.append(s_)
+            if isinstance(s_, (ast.Return, ast.Raise)):
+                break
+        return out
+    out = []
+    for s_ in stmts:
+        r = _FoldIf().visit(T().visit(s_))
+        out.extend(r if isinstance(r, list) else [r] if r is not None else [])
+    return trunc(out)
+
+
 class _FoldIf(ast.NodeTransformer):
     def visit_If(self, n):
         self.generic_visit(n)
@@ -672,6 +766,116 @@ class _OperatorCalls(ast.NodeTransformer):
 
 
 # ------------------------------------------------------------------------------------------------ driver
+# ------------------------------------------------------------------------------------------------ 2d. builder dictionaries
+def _builder_dicts(tree, log):
+    """A dictionary that a function builds entry by entry (D = {} ... D["k"] = v ... f(**D)) is written in one way:
+         D = {"k": v, ..}                 ->  D = {} ; D["k"] = v ; ..
+         N = E ... D["k"] = N             ->  D["k"] = E (at the place of N = E), later reads of N read D["k"]
+    Both only when D is assigned once, at the top level of the function, and is stored into by subscript somewhere (a lookup
+    table, never stored into, keeps its literal form); the second only when N is a single-assignment local of the top level."""
+    for f in [n for n in ast.walk(tree) if isinstance(n, ast.FunctionDef)]:
+        for _ in range(6):
+            if not _builder_step(f, log):
+                break
+
+
+class _Everything:
+    def __contains__(self, k):
+        return False
+
+
+def _not_keys(f, sl):
+    """a container that holds `k` when the subscript `sl` certainly never equals k: sl is the variable of a loop over a literal
+    tuple / list of constants (given in place or through a single-assignment local) that does not list k"""
+    if not isinstance(sl, ast.Name):
+        return _Everything()
+    lits = _single_assign_literals(f)
+    for n in ast.walk(f):
+        if isinstance(n, ast.For) and isinstance(n.target, ast.Name) and n.target.id == sl.id:
+            it = n.iter
+            if isinstance(it, ast.Name) and it.id in lits:
+                it = lits[it.id]
+            el = _literal_elems(it)
+            if el is None or not all(isinstance(e_, ast.Constant) for e_ in el):
+                return _Everything()
+            vals = {e_.value for e_ in el}
+
+            class NotIn:
+                def __contains__(self, k):
+                    return k not in vals
+            return NotIn()
+    return _Everything()
+
+
+def _builder_step(f, log):
+    stores = {}
+    for n in ast.walk(f):
+        if isinstance(n, ast.Name) and isinstance(n.ctx, ast.Store):
+            stores[n.id] = stores.get(n.id, 0) + 1
+    params = {a.arg for a in f.args.args + f.args.kwonlyargs} | ({f.args.vararg.arg} if f.args.vararg else set()) | \
+        ({f.args.kwarg.arg} if f.args.kwarg else set())
+    sub_stores = {}
+    for n in ast.walk(f):
+        if isinstance(n, ast.Subscript) and isinstance(n.ctx, ast.Store) and isinstance(n.value, ast.Name):
+            sub_stores.setdefault(n.value.id, []).append(n)
+    for k, st in enumerate(f.body):
+        if not (isinstance(st, ast.Assign) and len(st.targets) == 1 and isinstance(st.targets[0], ast.Name) and
+                isinstance(st.value, ast.Dict)):
+            continue
+        D = st.targets[0].id
+        if stores.get(D) != 1 or D in params or D not in sub_stores:
+            continue
+        # 1. literal entries become stores
+        if st.value.keys and all(isinstance(k_, ast.Constant) and isinstance(k_.value, str) for k_ in st.value.keys):
+            new = [ast.copy_location(ast.Assign(targets=[ast.Subscript(value=ast.Name(id=D, ctx=ast.Load()), slice=k_,
+                                                                       ctx=ast.Store())], value=v_, lineno=v_.lineno), v_)
+                   for k_, v_ in zip(st.value.keys, st.value.values)]
+            st.value = ast.copy_location(ast.Dict(keys=[], values=[]), st.value)
+            f.body[k + 1:k + 1] = new
+            for s_ in new:
+                ast.fix_missing_locations(s_)
+            log.append((f.name, "dict-literal:" + D))
+            return True
+        if st.value.keys:
+            continue
+        # 2. an entry that receives a single-assignment local unchanged *is* that local
+        for j in range(k + 1, len(f.body)):
+            s2 = f.body[j]
+            if not (isinstance(s2, ast.Assign) and len(s2.targets) == 1 and isinstance(s2.targets[0], ast.Subscript) and
+                    isinstance(s2.targets[0].value, ast.Name) and s2.targets[0].value.id == D and
+                    isinstance(s2.targets[0].slice, ast.Constant) and isinstance(s2.value, ast.Name)):
+                continue
+            key, N = s2.targets[0].slice.value, s2.value.id
+            if stores.get(N) != 1 or N in params:
+                continue
+            if sum(1 for x in sub_stores[D] if isinstance(x.slice, ast.Constant) and x.slice.value == key) != 1 or \
+                    any(not isinstance(x.slice, ast.Constant) and key not in _not_keys(f, x.slice) for x in sub_stores[D]):
+                continue
+            defs = [i for i, s1 in enumerate(f.body) if isinstance(s1, ast.Assign) and len(s1.targets) == 1 and
+                    isinstance(s1.targets[0], ast.Name) and s1.targets[0].id == N]
+            if len(defs) != 1 or defs[0] > j:
+                continue
+            i = defs[0]
+            ent = lambda ctx_, at: ast.copy_location(ast.Subscript(value=ast.Name(id=D, ctx=ast.Load()),
+                                                                   slice=ast.Constant(value=key), ctx=ctx_), at)
+            f.body[i].targets = [ent(ast.Store(), f.body[i].targets[0])]
+
+            class R(ast.NodeTransformer):
+                def visit_Name(self, n):
+                    return ent(ast.Load(), n) if n.id == N and isinstance(n.ctx, ast.Load) else n
+            del f.body[j]
+            for m in range(i + 1, len(f.body)):
+                f.body[m] = R().visit(f.body[m])
+            if i < k:                        # the empty dictionary exists before its first entry
+                d0 = f.body.pop(k)
+                f.body.insert(i, d0)
+            for s_ in f.body:
+                ast.fix_missing_locations(s_)
+            log.append((f.name, "dict-entry:%s[%r]=%s" % (D, key, N)))
+            return True
+    return False
+
+
 def normalise(tree, modname, inventory):
     log = []
     inl = _Inliner(tree, modname, inventory, log)
@@ -681,6 +885,7 @@ def normalise(tree, modname, inventory):
     _Enum(log).visit(tree)
     _Zip(log).visit(tree)
     _Aug(log).visit(tree)
+    _builder_dicts(tree, log)
     ast.fix_missing_locations(tree)
     return log
 
